@@ -22,6 +22,10 @@ CHECKS = {
    text='From every S2/S3 start (cross-model and cross-app FK/O2O/M2M, prefix model names, single-character app label) all sequences up to depth 2 (quick) / 3 (thorough) of RenameModel, RenameAppLabel, RenameField, DeleteField, DeleteModel, DeleteApplication, AddField; after every transition no relation in the simulated signature may dangle or mention a renamed-away name, and every database foreign key must point at an existing table/column and validate.',
    note='Crashes/SQL errors of a transition are C01 business. Rows (R2) are present so foreign_key_check is meaningful.',
    design='3/C11'),
+ 'C12': dict(level='exploration', technique='exhaustive perturbation enumeration (every operator x every position of every generated evolution) through the real evolve command, judged by the reference semantics',
+   text='Every reference-valid evolution of the stated alphabets/depths is perturbed by every operator (drop, duplicate, swap, model/field name missing or other, attribute value, remove initial, re-target, add existing field, delete primary key) at every position, installed as a real evolution module and run through `evolve --execute --noinput`; a non-equivalent evolution must be rejected with a CommandError carrying an evolution error, no effect statement may be issued and schema, rows, recorded evolutions and stored signature must be unchanged.',
+   note='Equivalence of a perturbed evolution is decided by the reference semantics (field/model order ignored), never by the implementation.',
+   design='3/C12'),
  'C13': dict(level='exploration', technique='exhaustive enumeration of hinted evolutions (C05 pair space through the real evolve --hint pipeline, plus constructed mutations over the value grammar); render -> exec -> compare',
    text='Every hinted evolution text produced by Evolver(hinted=True)/get_evolution_content() for the C05 pair space and for constructed mutations over the value grammar is exec-ed in a fresh namespace like an evolution module; the loaded MUTATIONS must equal the hinted ones (str), simulate to the same signature and generate the same SQL; texts with a user-input placeholder must carry it and refuse to load or run.',
    note='Hints that cannot be computed or applied at all belong to C05/C01.',
